@@ -37,7 +37,8 @@ int glob_files(fstree_t *fs, const char *filename, size_t line_num, const sqfs_d
 	return -1;
 }
 
-char *c16_capture_describe(const sqfs_tree_node_t *node, const char *unpack_root, size_t *len, int *rc);
+char *c16_capture_describe(const sqfs_tree_node_t *node, const char *unpack_root, size_t *len, int *rc, const char **cls);
+char *c16_capture_escaped(const char *str, size_t *len, int *rc);
 
 /* ---- classification of the diagnostics of fstree_from_file_stream ---- */
 static int ends_with(const char *s, size_t n, const char *suf)
@@ -163,12 +164,13 @@ static void print_describe(sqfs_tree_node_t *node, const char *rootarg)
 	size_t len = 0;
 	int rc;
 	char *out;
+	const char *cls = "";
 	if (strcmp(rootarg, "NONE") != 0) {
 		ul = hex_decode_tok(rootarg, &ur, 1);
 		if (ul < 0 || memchr(ur, 0, (size_t)ul)) { puts("bad-op"); free(ur); return; }
 	}
-	out = c16_capture_describe(node, (const char *)ur, &len, &rc);
-	if (rc != 0) puts("err");
+	out = c16_capture_describe(node, (const char *)ur, &len, &rc, &cls);
+	if (rc != 0) printf("err %s\n", cls);
 	else { fputs("ok ", stdout); hex_print(stdout, (unsigned char *)out, len); putchar('\n'); }
 	free(out);
 	free(ur);
@@ -212,6 +214,54 @@ int main(void)
 				free(sep);
 			}
 			free(buf);
+		} else if ((!strcmp(tok[0], "splitsep") || !strcmp(tok[0], "possep")) && nt == 3) {
+			unsigned char *sepb, *buf;
+			long sl = hex_decode_tok(tok[1], &sepb, 1), n;
+			split_line_t *sep = NULL;
+			int rc;
+			if (sl < 0 || memchr(sepb, 0, (size_t)sl)) { puts("bad-op"); continue; }
+			n = hex_decode_tok(tok[2], &buf, 1);
+			if (n < 0) { puts("bad-op"); free(sepb); continue; }
+			rc = split_line((char *)buf, (size_t)n, (const char *)sepb, &sep);
+			if (rc == SPLIT_LINE_UNMATCHED_QUOTE) puts("err quote");
+			else if (rc == SPLIT_LINE_ESCAPE) puts("err esc");
+			else if (rc != SPLIT_LINE_OK) puts("err other");
+			else if (!strcmp(tok[0], "possep")) {
+				fputs("ok", stdout);
+				for (size_t i = 0; i < sep->count; ++i)
+					printf(" %zu", (size_t)(sep->args[i] - (char *)buf));
+				putchar('\n');
+				free(sep);
+			} else {
+				printf("ok %zu", sep->count);
+				for (size_t i = 0; i < sep->count; ++i) {
+					putchar(' ');
+					hex_print(stdout, (unsigned char *)sep->args[i], strlen(sep->args[i]));
+				}
+				putchar('\n');
+				free(sep);
+			}
+			free(buf);
+			free(sepb);
+		} else if (!strcmp(tok[0], "esc") && nt == 3) {
+			unsigned char *buf;
+			long n = hex_decode_tok(tok[2], &buf, 1);
+			size_t len = 0;
+			int rc;
+			char *out;
+			if (n < 0 || memchr(buf, 0, (size_t)n)) { puts("bad-op"); continue; }
+			out = c16_capture_escaped((const char *)buf, &len, &rc);
+			if (rc == -2) puts("nofn");
+			else if (rc != 0) puts("err newline");
+			else { fputs("ok ", stdout); hex_print(stdout, (unsigned char *)out, len); putchar('\n'); }
+			free(out);
+			free(buf);
+		} else if (!strcmp(tok[0], "dev") && nt == 2) {
+			unsigned long long d = strtoull(tok[1], NULL, 10);
+			printf("%u %u %llu\n", major(d), minor(d), (unsigned long long)makedev(major(d), minor(d)));
+		} else if (!strcmp(tok[0], "mkdev") && nt == 3) {
+			sqfs_u64 a = strtoull(tok[1], NULL, 10), b = strtoull(tok[2], NULL, 10);
+			printf("%llu\n", (unsigned long long)makedev(a, b));
 		} else if (!strcmp(tok[0], "num") && nt == 4) {
 			unsigned long base = strtoul(tok[1], NULL, 10);
 			unsigned long long vmax = strtoull(tok[2], NULL, 10);
@@ -228,7 +278,7 @@ int main(void)
 			else if (rc == SQFS_ERROR_OUT_OF_BOUNDS) puts("err oob");
 			else puts("err other");
 			free(buf);
-		} else if (!strcmp(tok[0], "parse") && nt == 6) {
+		} else if ((!strcmp(tok[0], "parse") || !strcmp(tok[0], "parsef")) && nt == 6) {
 			unsigned char *buf;
 			long n = hex_decode_tok(tok[5], &buf, 0);
 			options_t opt;
@@ -246,7 +296,14 @@ int main(void)
 			opt.force_uid_value = (unsigned)strtoul(tok[2], NULL, 10);
 			opt.force_gid_value = (unsigned)strtoul(tok[4], NULL, 10);
 			/* small, varying window so that lines straddle refills of the stream buffer */
-			strm = istream_memory_create("memfile", 1 + (size_t)n % 61, buf, (size_t)n);
+			if (!strcmp(tok[0], "parsef")) {
+				/* through a real file: the 128 KiB buffer of lib/sqfs/src/io/istream.c; file name "memfile" in cwd */
+				FILE *tf = fopen("memfile", "wb");
+				if (!tf || fwrite(buf, 1, (size_t)n, tf) != (size_t)n || fclose(tf) != 0) abort();
+				if (sqfs_istream_open_file(&strm, "memfile", 0) != 0) abort();
+			} else {
+				strm = istream_memory_create("memfile", 1 + (size_t)n % 61, buf, (size_t)n);
+			}
 			if (!strm) abort();
 			rec = open_memstream(&rec_buf, &rec_len);
 			emem = open_memstream(&ebuf, &elen);
